@@ -1,6 +1,7 @@
 package main
 
 import (
+	"os"
 	"fmt"
 	"go/constant"
 	"strings"
@@ -74,7 +75,7 @@ func checkC17(w *World, r *Report) {
 	}
 	r.Rule("C17.pool", "P5,P6", "the pool-send success path appends a trace whose Address is the recipient, Genesis=false, FromGenesisAccount=false and FromGenesisPool = pool.GenesisPool", 4)
 	r.Rule("C17.split", "P5,P6", "the split path appends a trace only when the sender is traced, with Address = recipient, Genesis=false, FromGenesisPool = sender.FromGenesisPool and FromGenesisAccount = sender.Genesis || sender.FromGenesisAccount (truth table)", 5)
-	r.Rule("C17.key", "P8", "sibling agreement on the store key of a trace: every writer and every reader on the message and block trees uses AccAddress.String() of a parsed address, never a string as spelled in a message (found F21)", 3)
+	r.Rule("C17.key", "P8", "sibling agreement on the store key of a trace: every writer and every reader on the message and block trees uses AccAddress.String() of a parsed address, never a string as spelled in a message (found F21); the key bytes of the primitive write are traced back through helpers and pass-through parameters to every caller on those trees", 2)
 	r.Rule("C17.only", "P4", "trace writers reachable from messages are exactly these two append sites", 2)
 	r.Rule("C17.summary", "P6,P8", "summary: all = accounts + pools; delegated = vesting - locked (this order); accounts summed over GetVestingCoins / LockedCoins of the traced accounts at block time; the genesis variant filters by IsGenesisOrFromGenesis (all three flags) and takes pools from GetGenesisAmount (only genesis pools, currently locked); closed world: a recorded account is left out of the sums only by the genesis filter or the account-type test, and the loop is never left early", 11)
 	if !ro.checkFloors(r) {
@@ -87,25 +88,26 @@ func checkC17(w *World, r *Report) {
 		r.Unk("infra.anchor", "AppendVestingAccountTrace / SendToNewVestingAccount / splitVestingCoins", "", "anchor not found")
 		return
 	}
-	// field stores of the trace literal in fn that feed the append call
+	// the trace literal and the append call are looked for in the operation and in the helpers it calls; values are
+	// expressed in the operation's own terms (parameters of helpers replaced by the arguments handed down)
+	isAppend := func(s *Site) bool {
+		return calleeIs(s, "x/cfevesting/keeper.Keeper.AppendVestingAccountTrace") || calleeIs(s, "x/cfevesting/keeper.Keeper.SetVestingAccountTrace")
+	}
+	traceStores := func(fn *ssa.Function) map[string]StoreBelow {
+		out := map[string]StoreBelow{}
+		for _, sb := range w.storesBelow(fn, "VestingAccountTrace", 2, isAppend) {
+			out[sb.FS.Field] = sb
+		}
+		return out
+	}
 	traceFields := func(fn *ssa.Function) map[string]ssa.Value {
 		out := map[string]ssa.Value{}
-		for _, fs := range FieldStores(fn) {
-			if fs.Struct != nil && fs.Struct.Obj().Name() == "VestingAccountTrace" {
-				out[fs.Field] = fs.Store.Val
-			}
+		for f, sb := range traceStores(fn) {
+			out[f] = sb.Val
 		}
 		return out
 	}
-	appendSites := func(fn *ssa.Function) []*Site {
-		var out []*Site
-		for _, s := range cg.Sites[fn] {
-			if calleeIs(s, "x/cfevesting/keeper.Keeper.AppendVestingAccountTrace") || calleeIs(s, "x/cfevesting/keeper.Keeper.SetVestingAccountTrace") {
-				out = append(out, s)
-			}
-		}
-		return out
-	}
+	appendSites := func(fn *ssa.Function) []EffSite { return w.effectsBelow(fn, isAppend, 2) }
 	isFalse := func(v ssa.Value) bool {
 		if v == nil {
 			return true // field not set: zero value
@@ -137,9 +139,9 @@ func checkC17(w *World, r *Report) {
 			if c, ok := isCallTo(tf["Address"], "types.AccAddress.String"); ok && created != nil && c.Common().Args[0] == created {
 				addrOK = true
 			}
-			r.Check(addrOK, "C17.pool", "trace.Address = recipient", w.Pos(s.Instr.Pos()), "String() of the very address the account was created at", "the trace is not recorded under the canonical rendering of the address the account was created at (a raw message string may be spelled differently from every later lookup)")
-			r.Check(tf["FromGenesisPool"] != nil && loadOfField(tf["FromGenesisPool"], "GenesisPool", nil), "C17.pool", "trace.FromGenesisPool = pool.GenesisPool", w.Pos(s.Instr.Pos()), "sourced from the pool's flag", "FromGenesisPool is not sourced from the pool's GenesisPool flag")
-			r.Check(isFalse(tf["Genesis"]) && isFalse(tf["FromGenesisAccount"]), "C17.pool", "trace.Genesis = trace.FromGenesisAccount = false", w.Pos(s.Instr.Pos()), "constants false", "a pool-derived account is marked as genesis / from-genesis-account")
+			r.Check(addrOK, "C17.pool", "trace.Address = recipient", w.Pos(s.Site.Instr.Pos()), "String() of the very address the account was created at", "the trace is not recorded under the canonical rendering of the address the account was created at (a raw message string may be spelled differently from every later lookup)")
+			r.Check(tf["FromGenesisPool"] != nil && loadOfField(tf["FromGenesisPool"], "GenesisPool", nil), "C17.pool", "trace.FromGenesisPool = pool.GenesisPool", w.Pos(s.Site.Instr.Pos()), "sourced from the pool's flag", "FromGenesisPool is not sourced from the pool's GenesisPool flag")
+			r.Check(isFalse(tf["Genesis"]) && isFalse(tf["FromGenesisAccount"]), "C17.pool", "trace.Genesis = trace.FromGenesisAccount = false", w.Pos(s.Site.Instr.Pos()), "constants false", "a pool-derived account is marked as genesis / from-genesis-account")
 			// the pool whose flag is read is the pool that was debited
 			var sentBase ssa.Value
 			for _, fs := range FieldStores(send) {
@@ -153,14 +155,14 @@ func checkC17(w *World, r *Report) {
 					same = true
 				}
 			}
-			r.Check(same, "C17.pool", "the flag is read from the pool that was debited", w.Pos(s.Instr.Pos()), "same pool value", "the genesis flag is read from another pool than the one the coins came from")
+			r.Check(same, "C17.pool", "the flag is read from the pool that was debited", w.Pos(s.Site.Instr.Pos()), "same pool value", "the genesis flag is read from another pool than the one the coins came from")
 			var creates []ssa.Value
 			for _, s2 := range cg.Sites[send] {
 				if calleeIs(s2, "x/cfevesting/keeper.Keeper.newVestingAccount") {
 					creates = append(creates, siteValue(s2))
 				}
 			}
-			r.Check(OnSuccessEdge(send, s.Instr, creates...), "C17.pool", "trace appended only on success", w.Pos(s.Instr.Pos()), "nil edge of the account creation", "a trace is recorded although the account was not created")
+			r.Check(OnSuccessEdge(send, s.Top(), creates...), "C17.pool", "trace appended only on success", w.Pos(s.Site.Instr.Pos()), "nil edge of the account creation", "a trace is recorded although the account was not created")
 		}
 	}
 
@@ -178,35 +180,50 @@ func checkC17(w *World, r *Report) {
 			if c, ok := isCallTo(tf["Address"], "types.AccAddress.String"); ok && c.Common().Args[0] == ssa.Value(toP) {
 				addrOK = true
 			}
-			r.Check(addrOK, "C17.split", "trace.Address = recipient", w.Pos(s.Instr.Pos()), "toAddress.String()", "the trace is recorded for another address than the recipient")
-			// lookup of the sender's trace
-			var lookup *ssa.Call
-			for _, s2 := range cg.Sites[split] {
-				if calleeIs(s2, "x/cfevesting/keeper.Keeper.GetVestingAccountTrace") {
-					lookup, _ = s2.Instr.(*ssa.Call)
-					a := s2.Args()
-					c, ok := isCallTo(a[len(a)-1], "types.AccAddress.String")
-					r.Check(ok && c.Common().Args[0] == ssa.Value(fromP), "C17.split", "sender's trace looked up by the sender address", w.Pos(s2.Instr.Pos()), "GetVestingAccountTrace(from.String())", "the trace that is inherited is not the sender's")
-				}
+			r.Check(addrOK, "C17.split", "trace.Address = recipient", w.Pos(s.Site.Instr.Pos()), "toAddress.String()", "the trace is recorded for another address than the recipient")
+			// lookup of the sender's trace (in the operation or in the helper that appends)
+			var lookupE *EffSite
+			for _, le := range w.effectsBelow(split, func(x *Site) bool { return calleeIs(x, "x/cfevesting/keeper.Keeper.GetVestingAccountTrace") }, 2) {
+				le := le
+				lookupE = &le
+				a := le.RootArgs()
+				c, ok := isCallTo(a[len(a)-1], "types.AccAddress.String")
+				r.Check(ok && c.Common().Args[0] == ssa.Value(fromP), "C17.split", "sender's trace looked up by the sender address", w.Pos(le.Site.Instr.Pos()), "GetVestingAccountTrace(from.String())", "the trace that is inherited is not the sender's")
 			}
-			if lookup == nil {
+			if lookupE == nil {
 				r.Bad("C17.split", "sender's trace looked up", w.Pos(split.Pos()), "no GetVestingAccountTrace call")
 			} else {
+				lookup, _ := lookupE.Site.Instr.(*ssa.Call)
 				var found ssa.Value
-				for _, ref := range *lookup.Referrers() {
-					if ex, ok := ref.(*ssa.Extract); ok && ex.Index == 1 {
-						found = ex
+				if lookup != nil {
+					for _, ref := range *lookup.Referrers() {
+						if ex, ok := ref.(*ssa.Extract); ok && ex.Index == 1 {
+							found = ex
+						}
 					}
 				}
-				r.Check(found != nil && MustPass(split, boolValueEdges(split, found, true), s.Instr.Block()), "C17.split", "trace appended only when the sender is traced", w.Pos(s.Instr.Pos()), "dominated by found==true", "a trace is appended for a sender that is not traced (or not appended when it is)")
+				// decided in the function that holds the lookup: the append (or the call that leads to it) lies behind found==true
+				lf := lookupE.Site.Caller
+				var appendIn ssa.Instruction
+				if s.Site.Caller == lf {
+					appendIn = s.Site.Instr
+				} else {
+					for _, c := range s.Chain {
+						if c.Caller == lf {
+							appendIn = c.Instr
+						}
+					}
+				}
+				r.Check(found != nil && appendIn != nil && MustPass(lf, boolValueEdges(lf, found, true), appendIn.Block()) && effDominates(*lookupE, s), "C17.split", "trace appended only when the sender is traced", w.Pos(s.Site.Instr.Pos()), "dominated by found==true", "a trace is appended for a sender that is not traced (or not appended when it is)")
 			}
-			r.Check(tf["FromGenesisPool"] != nil && loadOfField(tf["FromGenesisPool"], "FromGenesisPool", nil), "C17.split", "trace.FromGenesisPool = sender.FromGenesisPool", w.Pos(s.Instr.Pos()), "inherited", "FromGenesisPool is not inherited from the sender")
-			r.Check(isFalse(tf["Genesis"]), "C17.split", "trace.Genesis = false", w.Pos(s.Instr.Pos()), "constant false", "a split recipient is marked as a genesis account")
+			r.Check(tf["FromGenesisPool"] != nil && loadOfField(tf["FromGenesisPool"], "FromGenesisPool", nil), "C17.split", "trace.FromGenesisPool = sender.FromGenesisPool", w.Pos(s.Site.Instr.Pos()), "inherited", "FromGenesisPool is not inherited from the sender")
+			r.Check(isFalse(tf["Genesis"]), "C17.split", "trace.Genesis = false", w.Pos(s.Site.Instr.Pos()), "constant false", "a split recipient is marked as a genesis account")
 			if tf["FromGenesisAccount"] == nil {
-				r.Bad("C17.split", "trace.FromGenesisAccount = sender.Genesis || sender.FromGenesisAccount", w.Pos(s.Instr.Pos()), "the flag is never set")
+				r.Bad("C17.split", "trace.FromGenesisAccount = sender.Genesis || sender.FromGenesisAccount", w.Pos(s.Site.Instr.Pos()), "the flag is never set")
 			} else {
-				why := boolTable(split, tf["FromGenesisAccount"], []string{"Genesis", "FromGenesisAccount"}, func(a map[string]bool) bool { return a["Genesis"] || a["FromGenesisAccount"] })
-				r.Check(why == "", "C17.split", "trace.FromGenesisAccount = sender.Genesis || sender.FromGenesisAccount", w.Pos(s.Instr.Pos()), "truth table over both flags agrees (4 rows)", why)
+				fga := traceStores(split)["FromGenesisAccount"]
+				why := boolTable(fga.FS.Fn, fga.FS.Store.Val, []string{"Genesis", "FromGenesisAccount"}, func(a map[string]bool) bool { return a["Genesis"] || a["FromGenesisAccount"] })
+				r.Check(why == "", "C17.split", "trace.FromGenesisAccount = sender.Genesis || sender.FromGenesisAccount", w.Pos(s.Site.Instr.Pos()), "truth table over both flags agrees (4 rows)", why)
 			}
 			// appended only after the transfer succeeded
 			var xfers []ssa.Value
@@ -215,17 +232,37 @@ func checkC17(w *World, r *Report) {
 					xfers = append(xfers, siteValue(s2))
 				}
 			}
-			r.Check(len(xfers) > 0 && OnSuccessEdge(split, s.Instr, xfers...), "C17.split", "trace appended only after the transfer succeeded", w.Pos(s.Instr.Pos()), "nil edge of the transfer's error", "a trace is recorded although the split failed")
+			r.Check(len(xfers) > 0 && OnSuccessEdge(split, s.Top(), xfers...), "C17.split", "trace appended only after the transfer succeeded", w.Pos(s.Site.Instr.Pos()), "nil edge of the transfer's error", "a trace is recorded although the split failed")
 		}
 	}
 
 	// ---------- C17.key ----------
-	// writers and readers of the trace prefix agree on the rendering of the address: AccAddress.String()
+	// writers and readers of the trace prefix agree on the rendering of the address: AccAddress.String(). The string is
+	// traced back through helpers and pass-through parameters (every caller); it must be a rendering of a parsed
+	// address on every path and never a string as it came in
 	{
-		canonical := func(v ssa.Value) bool {
-			_, ok := isCallTo(v, "types.AccAddress.String")
-			return ok
+		onTrees := cg.Reach(append(append([]*ssa.Function{}, flatten(ro.MSG)...), flatten(ro.BLK)...))
+		canonical := func(v ssa.Value, path []string) bool {
+			t := w.Tracer()
+			t.Lift = 3
+			t.LiftFilter = func(f *ssa.Function) bool { _, ok := onTrees[f]; return ok }
+			t.Stop = []string{"types.AccAddress.String"}
+			o := t.OriginsPath(v, path)
+			n := 0
+			if os.Getenv("C4E_DEBUG") != "" {
+				fmt.Println("C17KEY", o.String())
+			}
+			for _, l := range o.Leaves {
+				c, isCall := l.V.(*ssa.Call)
+				if l.Kind == "call" && isCall && strings.HasSuffix(callName(c.Common()), "types.AccAddress.String") {
+					n++
+					continue
+				}
+				return false
+			}
+			return n > 0
 		}
+		seenW := map[ssa.Instruction]bool{}
 		for fn := range cg.Reach(append(append([]*ssa.Function{}, flatten(ro.MSG)...), flatten(ro.BLK)...)) {
 			if !w.isProdFunc(fn) {
 				continue
@@ -234,19 +271,54 @@ func checkC17(w *World, r *Report) {
 				switch {
 				case calleeIs(s, "x/cfevesting/keeper.Keeper.GetVestingAccountTrace"), calleeIs(s, "x/cfevesting/keeper.Keeper.RemoveVestingAccountTrace"):
 					a := s.Args()
-					r.Check(canonical(a[len(a)-1]), "C17.key", funcName(fn)+": trace looked up under the canonical address", w.Pos(s.Instr.Pos()), "AccAddress.String()", "the trace is looked up under a string that is not the canonical rendering of an address")
-				case calleeIs(s, "x/cfevesting/keeper.Keeper.AppendVestingAccountTrace"), calleeIs(s, "x/cfevesting/keeper.Keeper.SetVestingAccountTrace"):
-					tf := traceFields(fn)
-					r.Check(canonical(tf["Address"]), "C17.key", funcName(fn)+": trace stored under the canonical address", w.Pos(s.Instr.Pos()), "AccAddress.String()", "the trace is stored under a string taken from the message: bech32 accepts several spellings of one address, so later lookups by the canonical rendering miss it and the lineage is lost")
+					r.Check(canonical(a[len(a)-1], nil), "C17.key", funcName(fn)+": trace looked up under the canonical address", w.Pos(s.Instr.Pos()), "AccAddress.String()", "the trace is looked up under a string that is not the canonical rendering of an address")
+				case cg.Atom(s) == StoreSet:
+					// the primitive write on the trace prefix: its key bytes
+					loc := cg.StoreLocOf(s)
+					if !loc.Resolved || !strings.HasPrefix(loc.Prefix, "VestingAccountTrace-value-") || moduleOfFunc(fn) != "cfevesting" || seenW[s.Instr] {
+						continue
+					}
+					seenW[s.Instr] = true
+					a := s.Args()
+					if len(a) < 1 {
+						continue
+					}
+					// lifted per message-tree caller: InitGenesis also writes through this function with stored strings
+					ok := canonicalOnTrees(w, s, a[0], canonical)
+					r.Check(ok, "C17.key", funcName(fn)+": trace stored under the canonical address", w.Pos(s.Instr.Pos()), "AccAddress.String()", "the trace is stored under a string taken from the message: bech32 accepts several spellings of one address, so later lookups by the canonical rendering miss it and the lineage is lost")
 				}
 			}
 		}
 	}
 	// ---------- C17.only ----------
+	// every call path from a message entry to a write (or delete) on the trace prefix passes through one of the two
+	// analysed operations: with those two removed from the call graph no writer is reachable
 	{
-		reach := cg.Reach(flatten(ro.MSG))
+		roots := flatten(ro.MSG)
+		reachAll := cg.Reach(roots)
+		avoid := map[*ssa.Function]bool{send: true, split: true}
+		reachAvoid := map[*ssa.Function]*ssa.Function{}
+		var stack []*ssa.Function
+		for _, rt := range roots {
+			if !avoid[rt] {
+				reachAvoid[rt] = nil
+				stack = append(stack, rt)
+			}
+		}
+		for len(stack) > 0 {
+			f := stack[len(stack)-1]
+			stack = stack[:len(stack)-1]
+			for _, s := range cg.Sites[f] {
+				for _, c := range s.Callees {
+					if _, seen := reachAvoid[c]; !seen && !avoid[c] {
+						reachAvoid[c] = f
+						stack = append(stack, c)
+					}
+				}
+			}
+		}
 		tracePrefix := "VestingAccountTrace-value-"
-		for _, s := range cg.SitesIn(reach) {
+		for _, s := range cg.SitesIn(reachAll) {
 			a := cg.Atom(s)
 			if a != StoreSet && a != StoreDel {
 				continue
@@ -255,15 +327,13 @@ func checkC17(w *World, r *Report) {
 			if !loc.Resolved || !strings.HasPrefix(loc.Prefix, tracePrefix) || moduleOfFunc(s.Caller) != "cfevesting" {
 				continue
 			}
-			// callers of the writer on message trees
-			for _, cs := range cg.Callers[s.Caller] {
-				if _, ok := reach[cs.Caller]; !ok {
-					continue
-				}
-				ok := cs.Caller == send || cs.Caller == split
-				r.Check(ok && a == StoreSet, "C17.only", fmt.Sprintf("%s on the trace prefix via %s called from %s", a, funcName(s.Caller), funcName(cs.Caller)), w.Pos(cs.Instr.Pos()),
-					"one of the two analysed append sites", "an additional writer of vesting-account traces is reachable from a message")
-			}
+			_, bypass := reachAvoid[s.Caller]
+			r.Check(!bypass && a == StoreSet, "C17.only", fmt.Sprintf("%s on the trace prefix in %s", a, funcName(s.Caller)), w.Pos(s.Instr.Pos()),
+				"reachable from messages only through the pool-send and the split operation", "an additional writer of vesting-account traces is reachable from a message: "+PathTo(reachAvoid, s.Caller))
+		}
+		for _, op := range []*ssa.Function{send, split} {
+			n := len(appendSites(op))
+			r.Check(n == 1, "C17.only", funcName(op)+" appends exactly one trace", w.Pos(op.Pos()), "one append site", fmt.Sprintf("%d append sites", n))
 		}
 	}
 
@@ -513,4 +583,10 @@ func isTypeAssertOK(v ssa.Value, suffix string) bool {
 	}
 	ta, ok := ex.Tuple.(*ssa.TypeAssert)
 	return ok && ta.CommaOk && strings.HasSuffix(typeString(ta.AssertedType), suffix)
+}
+
+// canonicalOnTrees: the key handed to the primitive trace write is canonical on every path that starts at a message or
+// block entry (parameters are followed to every caller on those trees).
+func canonicalOnTrees(w *World, s *Site, key ssa.Value, canonical func(ssa.Value, []string) bool) bool {
+	return canonical(key, nil)
 }
